@@ -26,10 +26,8 @@ func (msg *MsgMoveAvailableVestingByDenoms) Type() string {
 }
 
 func (msg *MsgMoveAvailableVestingByDenoms) GetSigners() []sdk.AccAddress {
-	fromAddress, err := sdk.AccAddressFromBech32(msg.FromAddress)
-	if err != nil {
-		panic(err)
-	}
+	// no panic on a malformed address: x/authz and the ICA host ask a message for its signers before validating it
+	fromAddress, _ := sdk.AccAddressFromBech32(msg.FromAddress)
 	return []sdk.AccAddress{fromAddress}
 }
 
